@@ -25,7 +25,7 @@ ASSUMPTIONS = [
     "corpus: a gap that contained a line break keeps everything up to its first line break (it may terminate a # comment)",
 ]
 TIERS = {
-    "quick": {"examples": 6000, "perturb": 2, "budget_s": 100},
+    "quick": {"examples": 16000, "perturb": 4, "budget_s": 100},
     "thorough": {"examples": 150000, "perturb": 40, "budget_s": 1500},
 }
 PARTS = ["corpus_part", "search"]
